@@ -16,7 +16,7 @@ from ..common import Run, main_guard
 common.bootstrap()
 
 from ..vclock import CLOCK, StepBudgetExceeded
-from ..fnet import FaultNet, Plan
+from ..fnet import FaultNet, Plan, DELAY
 from .. import wire as W
 
 from bacpypes.comm import Client, bind
@@ -30,7 +30,8 @@ RULE = ("random tree internetworks of 2..8 networks, 1..3 stations each, routers
         "each topology every source station x destination kind {local station, local broadcast, remote station, remote "
         "broadcast, global broadcast} x destination, first with cold caches (path discovery and parking) then warm, each "
         "followed by a reply from every recipient to the source address it was shown; rings of 3..5 two-port routers for "
-        "termination only.  A case is one (topology, source, destination); non-trivial = the packet crossed at least one "
+        "termination only; slow path-discovery answers (I-Am-Router-To-Network delayed 0.4..5 s on the asking station's "
+        "network while traffic from the peer's network passes by and the station sends again).  A case is one (topology, source, destination); non-trivial = the packet crossed at least one "
         "router or was a broadcast")
 
 
@@ -318,6 +319,75 @@ def run_bursts(run, rng, nnets, announce):
                         return
 
 
+def is_i_am_router(octets):
+    """an NPDU carrying I-Am-Router-To-Network (read from the octets, independent of the library)"""
+    o = octets
+    try:
+        if o[0] != 1 or not (o[1] & 0x80):
+            return False
+        i = 2
+        if o[1] & 0x20:
+            i += 3 + o[i + 2]
+        if o[1] & 0x08:
+            i += 3 + o[i + 2]
+        if o[1] & 0x20:
+            i += 1
+        return o[i] == 0x01
+    except IndexError:
+        return False
+
+
+def run_slow_answers(run, rng, nnets):
+    """a slow answer to path discovery: the I-Am-Router-To-Network a cold station asked for is still on the wire while traffic
+    from that network passes by (the path is learned from it) and the station sends again, then the answer arrives: each
+    packet is delivered once, to the addressed station only"""
+    CLOCK.reset()
+    topo = Topology(rng, nnets, announce=False, known=True, router_apps=0.0)
+    CLOCK.drive(duration=1.0, max_steps=200000)
+    st = topo.stations
+    a = rng.choice(sorted(st))
+    remote = sorted(k for k, v in st.items() if v["net"] != st[a]["net"])
+    if not remote:
+        return
+    b = rng.choice(remote)
+    slow = rng.choice([0.4, 2.0, 5.0])
+
+    def slow_i_am_router(n, rec):
+        if is_i_am_router(rec["octets"]):
+            return (DELAY, slow)
+        return None
+    topo.nets[st[a]["net"]].plan.fn = slow_i_am_router
+    wit = {"topology": topo.describe(), "asking": a, "peer": b, "answer_delayed_by": slow}
+    l0 = len(topo.log)
+    sends = [(a, b, "W00001"), (b, a, "W00002"), (a, b, "W00003"), (a, b, "W00004")]
+    try:
+        for k, (src, dst, tok) in enumerate(sends):
+            st[src]["user"].send(dest_address(topo, src, "remote-station", dst), tok)
+            CLOCK.drive(duration=slow / 4.0 if k < 3 else 10.0 + slow, max_steps=400000)
+    except StepBudgetExceeded as err:
+        run.violation("forwarding-does-not-terminate", dict(wit, error=str(err)))
+        return
+    except Exception as err:
+        run.violation("send-raised/" + type(err).__name__, dict(wit, error=repr(err)[:120]))
+        return
+    run.count("slow_answer_scenarios")
+    run.count("slow_answers_delayed", len(topo.nets[st[a]["net"]].plan.applied))
+    for src, dst, tok in sends:
+        run.case(("slow-answer", nnets, tok, src, dst, slow, repr(sorted(topo.describe()["routers"]))), sample=None)
+        got = [e["at"] for e in topo.log[l0:] if e["token"] == tok]
+        run.count("slow_answer_packets_checked")
+        w2 = dict(wit, token=tok, source=src, target=dst, got=got)
+        if set(got) - {dst}:
+            run.violation("delivered-to-station-not-addressed/remote-station/slow-path-answer", w2)
+            return
+        if len(got) > 1:
+            run.violation("delivered-more-than-once/remote-station/slow-path-answer", w2)
+            return
+        if not got:
+            run.violation("not-delivered/remote-station/slow-path-answer", w2)
+            return
+
+
 def route(topo, src_net, dst_net):
     """routers on the (unique, tree) path from src_net to dst_net: list of (router, arrival net)"""
     prev = {src_net: None}
@@ -576,12 +646,16 @@ def main():
         run_topology(run, rng, nnets, announce=rng.random() < 0.5, router_apps=rng.choice([0.0, 0.0, 0.5, 1.0]))
         if i % 3 == 0:
             run_bursts(run, rng, rng.choice([2, 3, 4, 5]), announce=rng.random() < 0.3)
+    # after the drawn topologies, so that they stay what they were for a given seed
+    srng = run.rng("c06-slow-answers")
+    for i in range(n):
+        run_slow_answers(run, srng, srng.choice([2, 2, 3, 4]))
     for k in (3, 4, 5):
         if thorough and not run.mine(k):
             continue
         run_ring(run, rng, k)
-    run.finish(require=("topologies", "deliveries_checked", "replies_checked", "forwarded_copies_checked", "ring_packets")
-               if not thorough or run.shard[0] in (3, 4, 5) else ("topologies", "deliveries_checked", "replies_checked", "forwarded_copies_checked", "burst_packets_checked"))
+    run.finish(require=("topologies", "deliveries_checked", "replies_checked", "forwarded_copies_checked", "ring_packets", "slow_answer_packets_checked", "slow_answers_delayed")
+               if not thorough or run.shard[0] in (3, 4, 5) else ("topologies", "deliveries_checked", "replies_checked", "forwarded_copies_checked", "burst_packets_checked", "slow_answer_packets_checked", "slow_answers_delayed"))
 
 
 if __name__ == "__main__":
